@@ -38,13 +38,13 @@ const (
 )
 
 type Node struct {
-	Name   string
-	Env    *lm.Env
-	H      *fault.Handle
-	Conf   config.Config
-	LC     config.LMDB
-	Opt    syncer.Options
-	S      *syncer.Syncer
+	Name string
+	Env  *lm.Env
+	H    *fault.Handle
+	Conf config.Config
+	LC   config.LMDB
+	Opt  syncer.Options
+	S    *syncer.Syncer
 
 	mu      sync.Mutex
 	running bool
